@@ -242,6 +242,9 @@ func scenarios(c *engine.Ctx) []scenario {
 			{Ingress: 1, Accept: 1, Close: 2},
 			{Ingress: 0, Accept: 1, Close: 1, Feeder: 2},
 			{Ingress: 1, Accept: 0, Close: 2, Cancel: true},
+			// an attached listener that still delivers after the first Close, and a second Close
+			{Ingress: 0, Accept: 0, Close: 2, Feeder: 1},
+			{Ingress: 0, Accept: 1, Close: 2, Feeder: 1},
 		}
 	}
 	var out []scenario
